@@ -1,0 +1,14 @@
+//go:build !verif
+
+// Package verifhook provides instrumentation points used only by the
+// verification harness. Without the "verif" build tag they do nothing.
+package verifhook
+
+// Enabled reports whether hooks are compiled in.
+const Enabled = false
+
+// Set is a no-op without the verif build tag.
+func Set(func(ev, path string, n int64)) {}
+
+// At is a no-op without the verif build tag.
+func At(string, string, int64) {}
